@@ -50,6 +50,17 @@ class NonLit:
     return hash(('nonlit', self.name))
 
 
+class HookError(Exception):
+  """Raised by a probe finalize hook that is specified to fail."""
+
+
+class BoolRaises:
+  """An invalid scope argument whose truth test raises (like a NumPy array)."""
+
+  def __bool__(self):
+    raise ValueError('The truth value of this object is ambiguous.')
+
+
 class Result:
   """What a 'record' probe returns: a fresh object per invocation."""
   counter = [0]
@@ -78,6 +89,7 @@ class World:
     self.cms = []          # open config_scope context managers
     self.unlock_cms = []
     self.nonlits = {}
+    self.step = 0
     self._reg_before = dict(config._REGISTRY.items())
     self._inv_before = dict(config._INVERSE_REGISTRY)
     self._hooks_before = list(config._FINALIZE_HOOKS)
@@ -268,24 +280,20 @@ class World:
     op = o['op']
     gin = self.gin
     res = {'op': op}
+    self.step += 1
     if op == 'Bind':
-      key = (scope_str(o['scope']), dotted(o['sel']), o['param'])
-      try:
-        gin.bind_parameter(key if o.get('api', 'tuple') == 'tuple' else
-                           '%s%s.%s' % (key[0] + '/' if key[0] else '', key[1], key[2]),
-                           self.to_real(o['val']))
-        res['status'] = 'ok'
-      except (ValueError, RuntimeError) as e:
-        res['status'] = type(e).__name__
-        res['msg'] = str(e)
+      res.update(self.bind(o))
     elif op == 'EnterScope':
+      invalids = ['inv@lid', 4, ['ok', 'b@d'], BoolRaises(), 'a//b', 3.5]
       arg = {'name': lambda: scope_str(o['comps']), 'list': lambda: list(o['comps']),
-             'clear': lambda: None, 'invalid': lambda: 'inv@lid'}[o['how']]()
+             'clear': lambda: (None if self.step % 2 else ''),
+             'invalid': lambda: invalids[self.step % len(invalids)]}[o['how']]()
       cm = gin.config_scope(arg)
       try:
-        cm.__enter__()
+        got = cm.__enter__()
         self.cms.append(cm)
         res['status'] = 'ok'
+        res['yielded'] = list(got)
       except ValueError:
         res['status'] = 'ValueError'
     elif op == 'ExitScope':
@@ -300,6 +308,56 @@ class World:
       res['status'] = 'ok'
     elif op == 'Call':
       res.update(self.call(dotted(o['sel']), o['pargs'], o['ckw']))
+    elif op == 'Finalize':
+      try:
+        gin.finalize()
+        res['status'] = 'ok'
+      except HookError:
+        res['status'] = 'HookError'
+      except (ValueError, RuntimeError, KeyError) as e:
+        res['status'] = type(e).__name__
+        res['msg'] = str(e)
+    elif op == 'RegisterHook':
+      h = o['hook']
+      rets = {}
+      for k in h['rets']:
+        key = '%s%s.%s' % (scope_str(k['scope']) + '/' if k['scope'] else '', dotted(k['spelling']), k['param'])
+        rets[key] = self.to_real(k['val'])
+      raises = h['raises']
+
+      def hook(config, rets=rets, raises=raises):
+        del config
+        if raises:
+          raise HookError('hook failed')
+        return dict(rets) if rets else None
+
+      self.config.register_finalize_hook(hook)
+      res['status'] = 'ok'
+    elif op == 'UnlockEnter':
+      cm = gin.unlock_config()
+      cm.__enter__()
+      self.unlock_cms.append(cm)
+      res['status'] = 'ok'
+    elif op == 'UnlockExit':
+      cm = self.unlock_cms.pop()
+      if o['byException']:
+        try:
+          cm.__exit__(KeyError, KeyError('body failed'), None)
+        except KeyError:
+          pass
+      else:
+        cm.__exit__(None, None, None)
+      res['status'] = 'ok'
+    elif op == 'Register':
+      res['status'] = self.register(o['conf'])
+    elif op == 'Query':
+      key = '%s%s.%s' % (scope_str(o['scope']) + '/' if o['scope'] else '', dotted(o['spelling']), o['param'])
+      try:
+        res['val'] = self.to_spec(gin.query_parameter(key))
+        res['status'] = 'ok'
+      except (ValueError, KeyError) as e:
+        res['status'] = type(e).__name__
+        res['val'] = ['none']
     elif op == 'Clear':
       try:
         gin.clear_config(clear_constants=o['clearConstants'])
@@ -308,6 +366,44 @@ class World:
         res['status'] = type(e).__name__
     else:
       raise AdapterError('unknown action %s' % op)
+    return res
+
+  def literal_text(self, v):
+    """Config-file text of a specification value."""
+    t = v[0]
+    if t == 'lit':
+      return repr(v[1])
+    if t == 'ref':
+      return '@' + '/'.join(list(v[2]) + [dotted(v[1])]) + ('()' if v[3] == 'call' else '')
+    if t == 'list':
+      return '[' + ', '.join(self.literal_text(x) for x in v[1]) + ']'
+    if t == 'tuple':
+      return '(' + ''.join(self.literal_text(x) + ', ' for x in v[1]) + ')'
+    if t == 'dict':
+      return '{' + ', '.join('%s: %s' % (self.literal_text(k), self.literal_text(x)) for k, x in v[1]) + '}'
+    raise AdapterError('no text form for %r' % (v,))
+
+  def bind(self, o):
+    gin = self.gin
+    scope, sel, param = scope_str(o['scope']), dotted(o.get('spelling') or o['sel']), o['param']
+    scoped = (scope + '/' if scope else '') + sel
+    api = o.get('api', 'tuple')
+    res = {}
+    try:
+      if api == 'tuple':
+        gin.bind_parameter((scope, sel, param), self.to_real(o['val']))
+      elif api == 'string':
+        gin.bind_parameter('%s.%s' % (scoped, param), self.to_real(o['val']))
+      elif api == 'text':
+        gin.parse_config('%s.%s = %s' % (scoped, param, self.literal_text(o['val'])))
+      elif api == 'block':
+        gin.parse_config('%s:\n  %s = %s\n' % (scoped, param, self.literal_text(o['val'])))
+      else:
+        raise AdapterError('unknown binding api %r' % api)
+      res['status'] = 'ok'
+    except (ValueError, RuntimeError, KeyError) as e:
+      res['status'] = type(e).__name__
+      res['msg'] = str(e)
     return res
 
   def call(self, sel, pargs, ckw):
@@ -346,6 +442,7 @@ class World:
     for (scope, sel), params in config._CONFIG.items():
       for p, v in params.items():
         cfg.setdefault((scope, sel), []).append([p, self.to_spec(v)])
+      cfg.setdefault((scope, sel), [])
     oper = set()
     okeys = set()
     for (scope, sel), params in config._OPERATIVE_CONFIG.items():
@@ -355,7 +452,9 @@ class World:
     return dict(cfg=cfg, okeys=okeys, oper=oper,
                 stack=[list(s) for s in config._SCOPE_MANAGER.active_scopes],
                 cur=list(self.gin.current_scope()),
-                locked=bool(self.gin.config_is_locked()))
+                locked=bool(self.gin.config_is_locked()),
+                reg=set(k for k, _ in config._REGISTRY.items() if k not in self._reg_before),
+                nhooks=len(config._FINALIZE_HOOKS) - len(self._hooks_before))
 
 
 def spec_projection(st):
@@ -366,7 +465,8 @@ def spec_projection(st):
   okeys = set((scope_str(k['scope']), dotted(k['sel'])) for k in st['okeys'])
   oper = set((scope_str(r['scope']), dotted(r['sel']), r['param'], core.jdump(r['val'])) for r in st['oper'])
   return dict(cfg=cfg, okeys=okeys, oper=oper, stack=[list(s) for s in st['stack']],
-              cur=list(st['stack'][-1]), locked=bool(st['locked']))
+              cur=list(st['stack'][-1]), locked=bool(st['locked']),
+              reg=set(dotted(c['sel']) for c in st['reg']), nhooks=len(st['hooks']))
 
 
 def norm_pairs(x):
@@ -378,6 +478,12 @@ def compare_out(want, got):
   Returns None or (field, expected, got)."""
   if want['op'] in ('none',):
     return None
+  if want['op'] == 'EnterScope' and want['status'] == 'ok':
+    exp = {'name': None, 'list': list(want['comps']), 'clear': []}[want['how']]
+    if exp is not None and got.get('yielded') != exp:
+      return ('yielded', exp, got.get('yielded'))
+  if want['op'] == 'Query' and want['status'] == 'ok' and want['val'] != got.get('val'):
+    return ('val', want['val'], got.get('val'))
   if want['status'] != got['status']:
     return ('status', want['status'], got['status'] + (': ' + got.get('msg', '')[:200] if got.get('msg') else ''))
   if want['op'] == 'Call':
@@ -401,7 +507,10 @@ def compare_out(want, got):
   return None
 
 
-def compare_state(want, got, fields=('cfg', 'okeys', 'oper', 'stack', 'cur', 'locked')):
+ALL_FIELDS = ('cfg', 'okeys', 'oper', 'stack', 'cur', 'locked', 'reg', 'nhooks')
+
+
+def compare_state(want, got, fields=ALL_FIELDS):
   for f in fields:
     w, g = want[f], got[f]
     if f == 'cfg':
@@ -413,7 +522,7 @@ def compare_state(want, got, fields=('cfg', 'okeys', 'oper', 'stack', 'cur', 'lo
   return None
 
 
-def replay(beh, fields=('cfg', 'okeys', 'oper', 'stack', 'cur', 'locked')):
+def replay(beh, fields=ALL_FIELDS):
   """Steps one exported GinCore behaviour through the real gin.
   Returns None if the code conforms, else a dict describing the first divergence."""
   world = World(beh[0]['reg'])
